@@ -133,3 +133,55 @@ func VP_C15_History() {
 	}
 	vpReach("end")
 }
+
+// VP_C18_ForEach: ForEach can be stopped after any number of members: no
+// further callback, no panic; what was seen are distinct members.
+func VP_C18_ForEach() {
+	vpMapOrder(vpCase("order"))
+	k, L := vpCase("strings"), vpCase("maxlen")
+	t := New()
+	ref := &vpSet{}
+	for i := 0; i < k; i++ {
+		b := vpSymBytes("s"+vpDigit(i), 1, L)
+		t.Add(b)
+		ref.add(append([]byte(nil), b...))
+	}
+	stop := vpChoice("stop", len(ref.m)+1)
+	var seen [][]byte
+	after := 0
+	declined := false
+	p := vpPanics(func() {
+		t.ForEach(func(b []byte) bool {
+			if declined {
+				after++
+				return false
+			}
+			seen = append(seen, append([]byte(nil), b...))
+			if len(seen) > stop {
+				declined = true
+				return false
+			}
+			return true
+		})
+	})
+	vpAssert(!p, "stopping ForEach early does not panic")
+	vpAssert(after == 0, "no callback after the consumer declined")
+	want := stop + 1
+	if want > len(ref.m) {
+		want = len(ref.m)
+	}
+	vpAssert(len(seen) == want, "exactly the accepted number of members was reported")
+	ok := true
+	for i, s := range seen {
+		isM := false
+		for _, m := range ref.m {
+			isM = isM || vpEq(s, m)
+		}
+		ok = ok && isM
+		for j := 0; j < i; j++ {
+			ok = ok && !vpEq(s, seen[j])
+		}
+	}
+	vpAssert(ok, "the members seen are distinct members of the full result")
+	vpReach("end")
+}
